@@ -16,8 +16,8 @@ def build_mirror():
         return None, "no replay crate"
     src = os.path.join(WORK, "replay-src")
     os.makedirs(src, exist_ok=True)
-    subprocess.run(["rsync", "-a", "--delete", "--exclude", "target", "--exclude", ".git", REPO + "/", src + "/ska/"], check=True)
-    subprocess.run(["rsync", "-a", "--delete", "--exclude", "target", crate + "/", src + "/mirror/"], check=True)
+    subprocess.run(["rsync", "-rlp", "--checksum", "--delete", "--exclude", "target", "--exclude", ".git", REPO + "/", src + "/ska/"], check=True)
+    subprocess.run(["rsync", "-rlp", "--checksum", "--delete", "--exclude", "target", crate + "/", src + "/mirror/"], check=True)
     lock = os.path.join(REPO, "Cargo.lock")
     env = dict(os.environ, CARGO_NET_OFFLINE="true", CARGO_TARGET_DIR=RTARGET)
     p = subprocess.run(["cargo", "build", "--release", "--offline"], cwd=os.path.join(src, "mirror"), env=env, capture_output=True, text=True)
@@ -50,7 +50,12 @@ def search(prop, failing, kres, tier):
     for f in failing:
         if f.get("kani") and kres.get("src"):
             h = f["fn"]
-            pb = kanilib.concrete_playback(kres["src"], h)
+            from props import KANI_GROUPS
+            gsrc = kres["src"]
+            grp = f.get("kani_group")
+            if grp and "fragment_unit" in KANI_GROUPS.get(grp, {}):
+                gsrc = kres.get("frag_src", {}).get(grp, gsrc)
+            pb = kanilib.concrete_playback(gsrc, h, extra_args=KANI_GROUPS.get(grp, {}).get("args"), group=grp)
             if pb:
                 out["input"] = {"kind": "kani-concrete-playback", "harness": h, "unit_test": pb}
                 return out
